@@ -22,7 +22,7 @@ try:
     if r.returncode != 0:
         sys.exit("patch does not apply: " + r.stderr)
     for p in props:
-        r = subprocess.run([os.path.join(VERIF, "check"), p, "--repo", wt], capture_output=True, text=True)
+        r = subprocess.run([os.path.join(VERIF, "check"), p, "--repo", wt], capture_output=True, text=True, timeout=2400)
         keys = re.findall(r"^  key:  (.*)$", r.stdout, re.M)
         rules = re.findall(r"^  rule: (.*)$", r.stdout, re.M)
         print("%s exit=%d %s" % (p, r.returncode, "" if r.returncode in (0, 1) else r.stdout[-400:]))
